@@ -1,12 +1,159 @@
 /-
-  UnytModel.Ops.C10 — opcodes of the C10 model (prefix `c10.`).
+  UnytModel.Ops.C10 — opcodes of the C10 model (prefix `c10.`): unit systems, synthesis,
+  `__getitem__`/`__setitem__`, `UnitSystem.__init__`, `get_base_equivalent`, `in_base`,
+  `convert_to_base`, and the row classifier of the kernel-decided closure obligation.
+
+  Wire formats (all stateless — a system travels as its `units_map`):
+  * expression  `coeffbits@sym:p/q;sym:p/q`
+  * units_map   `dim=expr|dim=none|…`   (dim = eight comma-separated rationals)
+  * extra rows of the registry table   `name&scalebits&offsetbits&dim&0|1` joined by `|`
 -/
 import UnytModel.DriverBase
+import UnytModel.SystemTables
 
 namespace Unyt
+namespace C10Wire
 
-def opsC10 : Handler := fun _st fields =>
+def exprStr (e : UExpr Float) : String :=
+  s!"{bitsStr e.coeff}@{Factors.str (UExpr.normF e.factors)}"
+
+def parseExpr (s : String) : Option (UExpr Float) :=
+  match s.splitOn "@" with
+  | [c, f] => do
+    let c ← fb c
+    let f ← Factors.parse f
+    some ⟨c, f⟩
+  | _ => none
+
+def parseOptExpr (s : String) : Option (Option (UExpr Float)) :=
+  if s == "none" then some none else (parseExpr s).map some
+
+def umStr (m : UMap Float) : String :=
+  "|".intercalate (m.map fun (d, e) =>
+    match e with
+    | some x => s!"{d.str}={exprStr x}"
+    | none => s!"{d.str}=none")
+
+def parseUm (s : String) : Option (UMap Float) :=
+  if s.isEmpty then some [] else
+  (s.splitOn "|").mapM fun item =>
+    match item.splitOn "=" with
+    | [d, e] => do
+      let d ← Dim.parse d
+      let e ← parseOptExpr e
+      some (d, e)
+    | _ => none
+
+def parseExtra (s : String) : Option (Lut Float) :=
+  if s.isEmpty then some [] else
+  (s.splitOn "|").mapM fun item =>
+    match item.splitOn "&" with
+    | [n, sc, off, d, p] => do
+      let sc ← fb sc
+      let off ← fb off
+      let d ← Dim.parse d
+      let p ← parseBool p
+      some (n, { scale := sc, dim := d, offset := off, prefixable := p })
+    | _ => none
+
+/-- the registry table: the extra rows override / extend a fresh copy of the default table -/
+def lutWith (st : DriverState) (extra : Lut Float) : Lut Float :=
+  extra.foldr (fun (k, e) t => Lut.set t k e) (st.luts[0]!)
+
+def sysOf (um : UMap Float) : USys Float := { name := "wire", um := um, base := um }
+
+end C10Wire
+
+open C10Wire in
+def opsC10 : Handler := fun st fields =>
+  let em : EmTable Float := defaultEm Float
   match fields with
+  -- dump of the regenerated tables
+  | ["c10.sys", name] =>
+    match findSystem Float name with
+    | some S => some (st, s!"ok\t{umStr S.um}\t{umStr S.base}")
+    | none => some (st, "none")
+  | ["c10.sysnames"] => some (st, "ok\t" ++ ",".intercalate ((builtinSystems Float).map (·.name)))
+  | ["c10.syskinds", name] =>
+    match rawSystem? name with
+    | some r => some (st, "ok\t" ++ "|".intercalate (r.entries.map fun (d, _, k) => s!"{d.str}={k}"))
+    | none => some (st, "none")
+  | ["c10.em"] =>
+    some (st, "ok\t" ++ "|".intercalate (em.map fun r =>
+      s!"{r.name}&{r.dim.str}&{r.toDim.str}&{r.partner}&{bitsStr r.factor}"))
+  -- _get_system_unit_string + parse
+  | ["c10.synth", um, d] =>
+    match parseUm um, Dim.parse d with
+    | some m, some d => some (st, s!"ok\t{exprStr (synth m d)}")
+    | _, _ => none
+  -- UnitSystem.__getitem__ (answer and grown units_map)
+  | ["c10.getitem", um, d] =>
+    match parseUm um, Dim.parse d with
+    | some m, some d =>
+      match (sysOf m).getItem d with
+      | .ok (e, S') => some (st, s!"ok\t{exprStr e}\t{umStr S'.um}")
+      | .error e => some (st, s!"err\t{e.str}")
+    | _, _ => none
+  | ["c10.setitem", um, d, e] =>
+    match parseUm um, Dim.parse d, parseExpr e with
+    | some m, some d, some e =>
+      match (sysOf m).setItem d e with
+      | .ok S' => some (st, s!"ok\t{umStr S'.um}")
+      | .error e => some (st, s!"err\t{e.str}")
+    | _, _, _ => none
+  -- UnitSystem.__init__: registry flag (0 = None, 1 = the table with the extra rows), 8 units
+  | ["c10.init", extra, reg, u1, u2, u3, u4, u5, u6, u7, u8] =>
+    match parseExtra extra, parseBool reg, [u1, u2, u3, u4, u5, u6, u7, u8].mapM parseOptExpr with
+    | some ex, some reg, some us =>
+      let t := lutWith st ex
+      match USys.init st.pre (st.luts[0]!) Generated.invNames (if reg then some t else none) "wire" us with
+      | .ok S => some (st, s!"ok\t{umStr S.um}\t{umStr S.base}")
+      | .error e => some (st, s!"err\t{e.str}")
+    | _, _, _ => none
+  -- Unit(expr).get_base_equivalent(system)
+  | ["c10.baseequiv", extra, um, ue] =>
+    match parseExtra extra, parseUm um, parseExpr ue with
+    | some ex, some m, some ue =>
+      let t := lutWith st ex
+      match mkUnit st.pre t ue with
+      | .error e => some (st, s!"err\tunit:{e.str}")
+      | .ok u => some (st, exceptOut unitOut (getBaseEquivalent st.pre t em (sysOf m) u))
+    | _, _, _ => none
+  -- unyt_quantity(x, expr).in_base(system): value, unit, units_map afterwards
+  | ["c10.inbase", extra, um, ue, x] =>
+    match parseExtra extra, parseUm um, parseExpr ue, fb x with
+    | some ex, some m, some ue, some x =>
+      let t := lutWith st ex
+      match mkUnit st.pre t ue with
+      | .error e => some (st, s!"err\tunit:{e.str}")
+      | .ok u =>
+        let S := sysOf m
+        match inBase st.pre t em S u x with
+        | .error e => some (st, s!"err\t{e.str}")
+        | .ok (y, v) =>
+          let S' := S.memoAll (inBaseTouches st.pre t em S u)
+          some (st, s!"{unitOut v}\t{bitsStr y}\t{umStr S'.um}")
+    | _, _, _, _ => none
+  -- convert_to_base
+  | ["c10.tobase", extra, um, ue, x] =>
+    match parseExtra extra, parseUm um, parseExpr ue, fb x with
+    | some ex, some m, some ue, some x =>
+      let t := lutWith st ex
+      match mkUnit st.pre t ue with
+      | .error e => some (st, s!"err\tunit:{e.str}")
+      | .ok u =>
+        match convertToBase st.pre t em (sysOf m) (x, u) with
+        | .error e => some (st, s!"err\t{e.str}")
+        | .ok (y, v) => some (st, s!"{unitOut v}\t{bitsStr y}")
+    | _, _, _, _ => none
+  -- the row classifier the kernel decides (at ℚ), executed
+  | ["c10.verdict", sys, name] =>
+    match rawSystem? sys with
+    | some r => some (st, s!"ok\t{(rowVerdict r name).str}")
+    | none => some (st, "none")
+  | ["c10.exclusions"] =>
+    let f (l : List (String × String)) := ",".intercalate (l.map fun (a, b) => s!"{a}|{b}")
+    some (st, s!"ok\t{f Ref.exclC10}\t{f Ref.exclC10Prefixed}\t{f Ref.okC10Prefixed}")
   | _ => none
 
 end Unyt
